@@ -12,8 +12,76 @@ Import ListNotations.
 Require Import Verif.Lib.Wire Verif.Lib.Text Verif.Gen.Facts_C03 Verif.Model.C03 Verif.Gen.Facts_C03_gen
                Verif.Proofs.C03.
 
-Theorem gen_checker_is_model rq v : gen_checker rq v = qualifies rq v.
+(* ------------------------------------------------------------ the __call__ of the stock predicates *)
+Theorem gen_pred_xhr_is_model b rq : gen_pred_xhr b rq = eval_pred rq (PXhr b).
 Proof. reflexivity. Qed.
+Theorem gen_pred_request_method_is_model vals rq : gen_pred_request_method vals rq = eval_pred rq (PMethod vals).
+Proof. reflexivity. Qed.
+Theorem gen_pred_path_info_is_model pat rq : gen_pred_path_info pat rq = eval_pred rq (PPathInfo pat).
+Proof. unfold gen_pred_path_info. cbn [eval_pred]. destruct (regex_match _ _ _); reflexivity. Qed.
+Theorem gen_pred_is_authenticated_is_model b rq : gen_pred_is_authenticated b rq = eval_pred rq (PIsAuth b).
+Proof. reflexivity. Qed.
+Theorem gen_pred_custom_is_model i rq : gen_pred_custom i rq = eval_pred rq (PCustom i).
+Proof. reflexivity. Qed.
+Theorem gen_pred_physical_path_is_model val rq : gen_pred_physical_path val rq = eval_pred rq (PPhysPath val).
+Proof. unfold gen_pred_physical_path. cbn [eval_pred]. destruct (q_has_name rq); reflexivity. Qed.
+
+Theorem gen_pred_request_param_is_model reqs rq : gen_pred_request_param reqs rq = eval_pred rq (PParam reqs).
+Proof.
+  unfold gen_pred_request_param. cbn [eval_pred].
+  induction reqs as [|[k v] l IH]; [reflexivity|]. cbn [forallb fst snd]. cbn -[assoc].
+  destruct (assoc k (q_params rq)) as [actual|]; [|reflexivity].
+  destruct v as [v|]; cbn; [destruct (text_eqb actual v); cbn|]; try reflexivity; apply IH.
+Qed.
+
+Theorem gen_pred_header_is_model vals rq : gen_pred_header vals rq = eval_pred rq (PHeader vals).
+Proof.
+  unfold gen_pred_header. cbn [eval_pred].
+  induction vals as [|[n v] l IH]; [reflexivity|]. cbn [forallb fst snd]. cbn -[assoc regex_match].
+  unfold header_present.
+  destruct v as [pat|]; destruct (assoc n (q_headers rq)) as [value|]; cbn -[regex_match]; try reflexivity; try apply IH.
+  destruct (regex_match (q_regex rq) pat value); cbn; [apply IH|reflexivity].
+Qed.
+
+Theorem gen_pred_accept_is_model values rq : gen_pred_accept values rq = eval_pred rq (PAccept values).
+Proof.
+  unfold gen_pred_accept, acceptable_texts. cbn [eval_pred].
+  induction values as [|o l IH]; [reflexivity|]. cbn [filter existsb].
+  destruct (N.ltb 0 (offer_q rq o)); [reflexivity|exact IH].
+Qed.
+
+Theorem gen_pred_containment_is_model i s rq : gen_pred_containment i rq = eval_pred rq (PContainment i s).
+Proof.
+  unfold gen_pred_containment, find_iface. cbn [eval_pred].
+  induction (q_lineage rq) as [|loc l IH]; [reflexivity|]. cbn [find existsb].
+  destruct (memN i (snd loc)); [reflexivity|exact IH].
+Qed.
+
+Theorem gen_pred_match_param_is_model reqs rq : gen_pred_match_param reqs rq = eval_pred rq (PMatchParam reqs).
+Proof.
+  unfold gen_pred_match_param. cbn [eval_pred].
+  destruct (q_matchdict rq) as [[|e md]|]; cbn [matchdict_truthy]; try reflexivity.
+  all: induction reqs as [|[k v] l IH]; [reflexivity|]; cbn [forallb fst snd matchdict_get]; cbn -[assoc];
+    destruct (opt_text_eqb (assoc k (e :: md)) v); cbn; [apply IH|reflexivity].
+Qed.
+
+Theorem gen_pred_not_is_model p rq : gen_pred_not p rq = eval_pred rq (PNot p).
+Proof. reflexivity. Qed.
+
+Theorem gen_eval_pred_is_model rq p : gen_eval_pred rq p = eval_pred rq p.
+Proof.
+  destruct p; unfold gen_eval_pred;
+    rewrite ?gen_pred_xhr_is_model, ?gen_pred_request_method_is_model, ?gen_pred_path_info_is_model,
+      ?gen_pred_request_param_is_model, ?gen_pred_header_is_model, ?gen_pred_accept_is_model,
+      ?(gen_pred_containment_is_model id str), ?gen_pred_match_param_is_model, ?gen_pred_physical_path_is_model,
+      ?gen_pred_is_authenticated_is_model, ?gen_pred_custom_is_model, ?gen_pred_not_is_model; reflexivity.
+Qed.
+
+Lemma forallb_gen_eval rq l : forallb (fun x => gen_eval_pred rq x) l = forallb (eval_pred rq) l.
+Proof. induction l as [|p l IH]; simpl; [reflexivity|]. rewrite gen_eval_pred_is_model, IH. reflexivity. Qed.
+
+Theorem gen_checker_is_model rq v : gen_checker rq v = qualifies rq v.
+Proof. unfold gen_checker, qualifies. apply forallb_gen_eval. Qed.
 
 Theorem gen_predicate_wrapper_is_model rq v : gen_predicate_wrapper rq v = call_reg rq v.
 Proof.
@@ -22,7 +90,8 @@ Proof.
   | |- ?F (r_preds v) = _ =>
       enough (H : forall l, F l = if forallb (eval_pred rq) l then Some (r_tag v) else None) by apply H
   end.
-  induction l as [|p l IH]; [reflexivity|]. simpl. destruct (eval_pred rq p); simpl; [apply IH|reflexivity].
+  induction l as [|p l IH]; [reflexivity|]. cbn -[gen_eval_pred]. rewrite gen_eval_pred_is_model.
+  destruct (eval_pred rq p); simpl; [apply IH|reflexivity].
 Qed.
 
 Theorem gen_predicated_view_is_model v rq : gen_predicated_view v rq = call_reg rq v.
@@ -211,85 +280,3 @@ Proof.
       * cbn -[assoc kw_del make_vals make_loop pred_phash factory app concat]. rewrite <- concat_snoc. apply IHv.
 Qed.
 
-(* ------------------------------------------------------------ the __call__ of the stock predicates *)
-Theorem gen_pred_xhr_is_model b rq : gen_pred_xhr b rq = eval_pred rq (PXhr b).
-Proof. reflexivity. Qed.
-Theorem gen_pred_request_method_is_model vals rq : gen_pred_request_method vals rq = eval_pred rq (PMethod vals).
-Proof. reflexivity. Qed.
-Theorem gen_pred_path_info_is_model pat rq : gen_pred_path_info pat rq = eval_pred rq (PPathInfo pat).
-Proof. unfold gen_pred_path_info. cbn [eval_pred]. destruct (regex_match _ _ _); reflexivity. Qed.
-Theorem gen_pred_is_authenticated_is_model b rq : gen_pred_is_authenticated b rq = eval_pred rq (PIsAuth b).
-Proof. reflexivity. Qed.
-Theorem gen_pred_custom_is_model i rq : gen_pred_custom i rq = eval_pred rq (PCustom i).
-Proof. reflexivity. Qed.
-Theorem gen_pred_physical_path_is_model val rq : gen_pred_physical_path val rq = eval_pred rq (PPhysPath val).
-Proof. unfold gen_pred_physical_path. cbn [eval_pred]. destruct (q_has_name rq); reflexivity. Qed.
-
-Theorem gen_pred_request_param_is_model reqs rq : gen_pred_request_param reqs rq = eval_pred rq (PParam reqs).
-Proof.
-  unfold gen_pred_request_param. cbn [eval_pred].
-  induction reqs as [|[k v] l IH]; [reflexivity|]. cbn [forallb fst snd]. cbn -[assoc].
-  destruct (assoc k (q_params rq)) as [actual|]; [|reflexivity].
-  destruct v as [v|]; cbn; [destruct (text_eqb actual v); cbn|]; try reflexivity; apply IH.
-Qed.
-
-Theorem gen_pred_header_is_model vals rq : gen_pred_header vals rq = eval_pred rq (PHeader vals).
-Proof.
-  unfold gen_pred_header. cbn [eval_pred].
-  induction vals as [|[n v] l IH]; [reflexivity|]. cbn [forallb fst snd]. cbn -[assoc regex_match].
-  unfold header_present.
-  destruct v as [pat|]; destruct (assoc n (q_headers rq)) as [value|]; cbn -[regex_match]; try reflexivity; try apply IH.
-  destruct (regex_match (q_regex rq) pat value); cbn; [apply IH|reflexivity].
-Qed.
-
-Theorem gen_pred_accept_is_model values rq : gen_pred_accept values rq = eval_pred rq (PAccept values).
-Proof.
-  unfold gen_pred_accept, acceptable_texts. cbn [eval_pred].
-  induction values as [|o l IH]; [reflexivity|]. cbn [filter existsb].
-  destruct (N.ltb 0 (offer_q rq o)); [reflexivity|exact IH].
-Qed.
-
-Theorem gen_pred_containment_is_model i s rq : gen_pred_containment i rq = eval_pred rq (PContainment i s).
-Proof.
-  unfold gen_pred_containment, find_iface. cbn [eval_pred].
-  induction (q_lineage rq) as [|loc l IH]; [reflexivity|]. cbn [find existsb].
-  destruct (memN i (snd loc)); [reflexivity|exact IH].
-Qed.
-
-Theorem gen_pred_match_param_is_model reqs rq : gen_pred_match_param reqs rq = eval_pred rq (PMatchParam reqs).
-Proof.
-  unfold gen_pred_match_param. cbn [eval_pred].
-  destruct (q_matchdict rq) as [[|e md]|]; cbn [matchdict_truthy]; try reflexivity.
-  induction reqs as [|[k v] l IH]; [reflexivity|]. cbn [forallb fst snd matchdict_get]. cbn -[assoc].
-  destruct (opt_text_eqb (assoc k (e :: md)) v); cbn; [apply IH|reflexivity].
-Qed.
-
-Theorem gen_pred_not_is_model p rq : gen_pred_not p rq = eval_pred rq (PNot p).
-Proof. reflexivity. Qed.
-
-(* the predicate objects dispatch to the regenerated bodies: eval_pred, regenerated *)
-Definition gen_eval_pred (rq : request) (p : pred) : bool :=
-  match p with
-  | PXhr v => gen_pred_xhr v rq
-  | PMethod vals => gen_pred_request_method vals rq
-  | PPathInfo o => gen_pred_path_info o rq
-  | PParam reqs => gen_pred_request_param reqs rq
-  | PHeader vals => gen_pred_header vals rq
-  | PAccept values => gen_pred_accept values rq
-  | PContainment i _ => gen_pred_containment i rq
-  | PMatchParam reqs => gen_pred_match_param reqs rq
-  | PPhysPath val => gen_pred_physical_path val rq
-  | PIsAuth v => gen_pred_is_authenticated v rq
-  | PCustom i => gen_pred_custom i rq
-  | PThird i ph => eval_pred rq (PThird i ph)        (* third-party: a truth table, nothing to translate *)
-  | PNot q => gen_pred_not q rq
-  end.
-
-Theorem gen_eval_pred_is_model rq p : gen_eval_pred rq p = eval_pred rq p.
-Proof.
-  destruct p; unfold gen_eval_pred;
-    rewrite ?gen_pred_xhr_is_model, ?gen_pred_request_method_is_model, ?gen_pred_path_info_is_model,
-      ?gen_pred_request_param_is_model, ?gen_pred_header_is_model, ?gen_pred_accept_is_model,
-      ?(gen_pred_containment_is_model id str), ?gen_pred_match_param_is_model, ?gen_pred_physical_path_is_model,
-      ?gen_pred_is_authenticated_is_model, ?gen_pred_custom_is_model, ?gen_pred_not_is_model; reflexivity.
-Qed.
